@@ -31,6 +31,12 @@ func sortBig(keys []fqlast.SortKey) *fqlast.Program {
 		Body: []fqlast.Clause{{K: "sort", Keys: keys}}, Ret: &fqlast.Ret{E: bigField("k")}}}
 }
 
+// FOR x IN [1, 2, 3] LIMIT <count> RETURN x
+func limitBy(count *fqlast.E) *fqlast.Program {
+	return &fqlast.Program{For: &fqlast.For{Val: "x", Src: fqlast.Arr(fqlast.Int(1), fqlast.Int(2), fqlast.Int(3)),
+		Body: []fqlast.Clause{{K: "limit", Count: count}}, Ret: &fqlast.Ret{E: fqlast.Var("x")}}}
+}
+
 func paramSets() []paramSet {
 	mk := func(n int, arr []interface{}, obj map[string]interface{}, s string, f float64) paramSet {
 		big := make([]interface{}, 30)
@@ -102,6 +108,8 @@ func main() {
 		sortBig([]fqlast.SortKey{{E: bigField("a"), Desc: true, Dir: "DESC"}, {E: bigField("b")}}),
 		sortBig([]fqlast.SortKey{{E: bigField("b"), Desc: true, Dir: "DESC"}, {E: bigField("a")}, {E: bigField("k"), Desc: true, Dir: "DESC"}}),
 		sortBig([]fqlast.SortKey{{E: bigField("a"), Dir: "ASC"}, {E: bigField("b"), Desc: true, Dir: "DESC"}, {E: bigField("k")}}),
+		// LIMIT operands that are not numbers at run time are an error, not a coercion
+		limitBy(fqlast.Param("s")), limitBy(fqlast.Param("arr")), limitBy(fqlast.Member(fqlast.Param("obj"), fqlast.Seg{Name: "nope"})), limitBy(fqlast.Param("n")), limitBy(fqlast.Param("f")),
 		// integer literals are decimal whatever their spelling (leading zeros)
 		{Ret: fqlast.Arr(&fqlast.E{K: "int", Int: 10, Str: "010"}, &fqlast.E{K: "int", Int: 7, Str: "007"},
 			fqlast.Math("+", &fqlast.E{K: "int", Int: 10, Str: "0010"}, fqlast.Int(1)), &fqlast.E{K: "int", Int: 0, Str: "00"})},
